@@ -20,7 +20,11 @@
 //     moves one to a free port and keeps one; after the ports are freed the removed one must stay absent
 //     for longer than the visitor manager's 10 s retry interval, the moved one must listen on the new
 //     port only, the kept one must come up (socket inode and ownership decide whose listener it is).
-//  6. legal-transition automaton over the client.wrapper.phase hook (phase.go), active in all cases.
+//  6. local start failures (localfail.go): the server accepts the registration but the proxy's own start
+//     fails (tls2raw / https2http plugin whose certificate files do not exist yet): the registration must be
+//     withdrawn at the server (real frps table and port; exact N C stream at the scripted server), the start
+//     is retried after the back-off, and once the files exist the proxy runs on both sides with TLS traffic.
+//  7. legal-transition automaton over the client.wrapper.phase hook (phase.go), active in all cases.
 package main
 
 import (
@@ -50,16 +54,17 @@ var ports *h.PortAlloc
 
 // index ranges of the phases (a replayed case index selects exactly one phase)
 const (
-	baseHealth   = 0
-	baseReload   = 1000000
-	baseGating   = 2000000
-	baseScripted = 3000000
-	baseVisitors = 4000000
+	baseHealth    = 0
+	baseReload    = 1000000
+	baseGating    = 2000000
+	baseScripted  = 3000000
+	baseVisitors  = 4000000
+	baseLocalFail = 5000000
 )
 
 func main() {
 	run = h.NewRun(prop, "exploration")
-	run.Rule = "health: PRNG-generated probe outcome sequences over {2xx, non-2xx, timeout, refusal} x maxFailed 0-4 x interval/timeout 1-2 s (http, probe-exact) and closed-listener window scripts (tcp); distinct = (type, settings, outcome sequence). reload: PRNG-generated histories of 3-6 configuration sets over 5 proxy and 2 visitor names (add/remove/change/reorder/duplicate/no-op, api or http reload, burst or settled); distinct = (operation list, application modes). gating: segment scripts per health-checked proxy; distinct = (settings, observed outcome string). visitors: 3 visitors whose bindPort is held by the harness, then removed / moved / kept by a reload after 0-2 unchanged reloads (or ports freed first as control); distinct = (variant, unchanged reloads, order). scripted: 7 templates (start error xk, missing reply + late reply, removed / changed while the reply is outstanding, health-gated work connections with and without a held reply, unchanged reloads, reload at 0-2 ms after a re-login is accepted); distinct = (template, parameters)"
+	run.Rule = "health: PRNG-generated probe outcome sequences over {2xx, non-2xx, timeout, refusal} x maxFailed 0-4 x interval/timeout 1-2 s (http, probe-exact) and closed-listener window scripts (tcp); distinct = (type, settings, outcome sequence). reload: PRNG-generated histories of 3-6 configuration sets over 5 proxy and 2 visitor names (add/remove/change/reorder/duplicate/no-op, api or http reload, burst or settled); distinct = (operation list, application modes). gating: segment scripts per health-checked proxy; distinct = (settings, observed outcome string). visitors: 3 visitors whose bindPort is held by the harness, then removed / moved / kept by a reload after 0-2 unchanged reloads (or ports freed first as control); distinct = (variant, unchanged reloads, order). localfail: {tls2raw, https2http} x {real frps, scripted server} x 1-2 failed cycles before the certificate files appear; distinct = these. scripted: 7 templates (start error xk, missing reply + late reply, removed / changed while the reply is outstanding, health-gated work connections with and without a held reply, unchanged reloads, reload at 0-2 ms after a re-login is accepted); distinct = (template, parameters)"
 	run.Assumptions = []string{
 		"http probes are observed at a recording RoundTripper wrapped around http.DefaultTransport; it delegates to the real transport and only opens/closes the harness's own backend listener between two probes",
 		"a refused tcp probe is invisible to the backend: tcp health scripts are judged with lower bounds on elapsed time (at most floor(W/interval)+1 probes fit into a closed window of measured length W)",
@@ -108,6 +113,7 @@ func main() {
 	phase("gating", func() { run.ParallelRange(baseGating, nGating, 20, gatingCase) })
 	phase("scripted", func() { run.ParallelRange(baseScripted, nScripted, run.N(16, 16), scriptedCase) })
 	phase("visitors", func() { run.ParallelRange(baseVisitors, run.N(6, 48), 8, unstartableVisitorCase) })
+	phase("localfail", func() { run.ParallelRange(baseLocalFail, run.N(6, 48), 8, localFailCase) })
 	wg.Wait()
 	run.Set("phase_wall_s", walls)
 
